@@ -133,22 +133,11 @@ func RunSched(r *Run, spec SchedSpec) *vsync.Stats {
 	// findings -> violations (deduplicated by kind + first line)
 	for _, f := range total.Findings {
 		if f.Kind == "stuck" {
-			// a watchdog timeout may be the machine, not the code: the schedule is run once more in a fresh worker and
-			// only counts if it is stuck again
-			again := pool.Do([]json.RawMessage{mk(schedTask{Prefix: f.Choices, Single: true})}, nil)
-			sr, ok := decode(again[0])
-			confirmed := false
-			if ok {
-				for _, f2 := range sr.Stats.Findings {
-					if f2.Kind == "stuck" {
-						confirmed = true
-					}
-				}
-			}
-			if !confirmed {
-				r.Cap(fmt.Sprintf("%s: one execution ran into the real-time watchdog and finished when it was run again (choices %v)", spec.Name, f.Choices))
-				continue
-			}
+			// an execution that ran into the real-time watchdog: a thread blocked in something the scheduler does not
+			// control (an unbuffered channel send, I/O). That is a limit of the harness, not a verdict on the code: the
+			// scenario is reported as not explored (exhaustive: false), never as a violation and never silently
+			r.Cap(fmt.Sprintf("%s: an execution did not finish under the controlled scheduler (blocked outside its control; choices %v): the scenario is NOT explored", spec.Name, f.Choices))
+			continue
 		}
 		first := f.What
 		if i := strings.Index(first, "\n"); i > 0 {
